@@ -135,6 +135,8 @@ type Response struct {
 	Body    string            `json:"body,omitempty"` // attribute name used as the whole body
 	Empty   bool              `json:"empty,omitempty"`
 	CT      string            `json:"content_type,omitempty"`
+	// CodeInside: declared as Response(func() { Code(status); ... }) instead of Response(status, func() { ... })
+	CodeInside bool `json:"code_inside,omitempty"`
 }
 
 // Route is verb + path pattern.
